@@ -35,7 +35,7 @@ REQUIRED = {"line.selects_entity_scenarios": {"quick": 8000, "thorough": 500000}
             "setup_teardown.never_skipped": {"quick": 40, "thorough": 2000}}
 REQUIRED_SEEN = {"entity_kind_addressed": ["feature", "rule", "outline", "row", "scenario", "line0", "other_line", "beyond_end"],
                  "argument_list_shape": ["DL", "LD", "LL", "DLD"], "wildcard_listfile_place": ["working_directory", "sub_directory"],
-                 "name_selection_shape": ["pattern_matches_the_empty_name_of_an_untitled_scenario", "together_with_a_file_location", "in_a_dry_run", "row_titles_rendered_from_placeholders"]}
+                 "name_selection_shape": ["pattern_matches_the_empty_name_of_an_untitled_scenario", "together_with_a_file_location", "in_a_dry_run", "row_titles_rendered_from_placeholders", "row_added_in_before_feature"]}
 EXHAUSTIVE = True
 EXHAUSTIVE_SCOPE = "every line number 0..last+2 of every generated document"
 NSHARDS = {"quick": 16, "thorough": 16}
@@ -206,6 +206,16 @@ def run(spec, mon):
                               lambda: W(line=line, addressed=kind, got=got, want=want_all))
                 except Exception as ex:
                     mon.check("line.selects_entity_scenarios", False, lambda: W(line=line, error=repr(ex)))
+            try:
+                for dd in docs:
+                    parse_features([FileLocation(dd.fname)])
+            except Exception as ex:
+                # (a generated document is legal Gherkin: a parser that rejects it is reported, the other monitors need the model)
+                mon.check("files.generated_documents_parse", False, lambda: dict(error=repr(ex), texts=[dd.text for dd in docs]))
+                for dd in docs:
+                    os.remove(dd.fname)
+                continue
+            mon.check("files.generated_documents_parse", True, None)
             if doc.protected:
                 # a location that does not contain them still leaves @setup/@teardown scenarios unskipped
                 other = [l for l in doc.entity_lines if doc.entities[l][0] in ("scenario", "row") and l not in doc.protected]
@@ -453,6 +463,46 @@ def run(spec, mon):
                 skipped_ok = all((s.status.name == "skipped") for s in feats[0].walk_scenarios() if s.name not in want)
                 mon.check("name.selects_matching", entered == want and skipped_ok,
                           lambda: W(patterns=pats, location_line=loc_line, entered=entered, want=want, others_skipped=skipped_ok))
+            # ---- a scenario that exists only after before_feature added its Examples row (table.add_row(), what
+            #      behave.contrib.csv_table_from_file does), selected by its name: it runs, nothing else does
+            from behave.model import ScenarioOutline as _SO, Rule as _Rule
+
+            def outlines_of(c):
+                out = []
+                for it in c.run_items:
+                    if isinstance(it, _Rule):
+                        out.extend(outlines_of(it))
+                    elif isinstance(it, _SO):
+                        out.append(it)
+                return out
+            try:
+                probe_f = parse_features([FileLocation(doc.fname)])[0]
+                outs2 = outlines_of(probe_f)
+                cands = [(k, ei) for k, o in enumerate(outs2) for ei, ex in enumerate(o.examples) if ex.table is not None and ex.table.rows]
+                if cands:
+                    k, ei = rng.choice(cands)
+                    all_before = [x.name for x in probe_f.walk_scenarios()]
+                    cells = list(outs2[k].examples[ei].table.rows[0].cells)
+                    outs2[k].examples[ei].table.add_row(list(cells))
+                    new = [x.name for x in outs2[k].scenarios if x.name not in all_before]
+                    if len(new) == 1:
+                        feats = parse_features([FileLocation(doc.fname)])
+                        entered = []
+
+                        def grow(state, context, name, elem, tag):
+                            if name == "before_feature":
+                                outlines_of(elem)[k].examples[ei].table.add_row(list(cells))
+                            if name == "before_scenario":
+                                entered.append(elem.name)
+                        pat = "^%s$" % re.escape(new[0])
+                        obs = lab.run({"features": [], "outcomes": {}}, args=["--name=%s" % pat], features=feats, hook_plugins=[grow])
+                        mon.case(("name-of-added-row", doc.text, pat), True)
+                        mon.seen("name_selection_shape", "row_added_in_before_feature")
+                        mon.check("name.selects_matching", obs.escaped is None and entered == new,
+                                  lambda: W(patterns=[pat], entered=entered, want=new, escaped=repr(obs.escaped),
+                                            note="the Examples row was added by the before_feature hook"))
+            except Exception as ex:
+                mon.check("name.selects_matching", False, lambda: W(error=repr(ex), note="row added in before_feature"))
             if not doc.protected and doc.entity_lines:
                 # a file:LINE run of a project whose environment.py uses the documented auto-retry recipe (in before_feature every
                 # scenario / outline is patched with behave.contrib.scenario_autoretry): what runs is still what the line addresses
